@@ -1693,6 +1693,9 @@ class VectorObject4D(VectorObject, Lorentz, Vector4D):
         temporal: TemporalObject | None = None,
         **kwargs: float,
     ) -> None:
+        if not _is_type_safe(kwargs):
+            raise TypeError("a coordinate must be of the type int or float")
+
         for k, v in kwargs.copy().items():
             kwargs.pop(k)
             if _repr_momentum_to_generic.get(k, k) in kwargs:
